@@ -39,7 +39,7 @@ WEIGHTS = {
 }  # fmt: skip
 
 
-DEFAULT_WEIGHT = 4
+DEFAULT_WEIGHT = 8
 
 
 def entries():
@@ -615,7 +615,7 @@ def replay_file(path):
 
 # ------------------------------------------------------------------ driver interface
 
-QUICK_RUNS = 6000
+QUICK_RUNS = 10000
 CHUNK = 4
 CHUNK_TIMEOUT = 900
 THOROUGH_S = 1200
